@@ -314,8 +314,9 @@ def jobs(tier):
     q = tier == "quick"
     for code in S301.INT_TYPES:
         for spelling in ("dec", "hex"):
-            for access, doc in ((("rw", "eds"), ("const", "dcf")) if q else
-                                (("rw", "eds"), ("ro", "eds"), ("wo", "dcf"), ("const", "dcf"), ("RW", "dcf"))):
+            for access, doc in ((("rw", "eds"), ("const", "dcf"), ("rwr", "dcf"), ("rww", "eds")) if q else
+                                (("rw", "eds"), ("ro", "eds"), ("wo", "dcf"), ("const", "dcf"), ("RW", "dcf"),
+                                 ("rwr", "eds"), ("rww", "dcf"), ("Ro", "eds"))):
                 out.append(dict(func="int_variable", params=dict(code=code, access=access, spelling=spelling,
                                                                  doc_type=doc)))
     for form in ("prefix", "suffix"):
